@@ -248,6 +248,7 @@ func RunTrap(p *plan.Plan) *plan.Result {
 	var a Args
 	var digest uint64
 	nontrivial := false
+	stop := false
 	for si := range tk.Steps {
 		step := &tk.Steps[si]
 		def := Ops[step.Op]
@@ -270,7 +271,7 @@ func RunTrap(p *plan.Plan) *plan.Result {
 		}
 		if out0.Hang {
 			st["skipped_budget"]++
-			continue
+			break
 		}
 		// fault-injecting execution
 		flt := a
@@ -291,6 +292,7 @@ func RunTrap(p *plan.Plan) *plan.Result {
 			// A3: liveness after the fault
 			addViol(plan.Violation{Property: "C03", Class: "C03/hang/" + step.Op, Key: "hang", Step: si,
 				Detail: "the call did not return within the step budget once a trapped condition had fired\n" + desc()})
+			stop = true
 		case outT.Panic != "" && out0.Panic == "":
 			addViol(plan.Violation{Property: "C03", Class: "C03/panic/" + step.Op, Key: "panic", Step: si, Detail: "panic only under the trap set\n" + desc()})
 		case outT.Panic != "":
@@ -347,6 +349,9 @@ func RunTrap(p *plan.Plan) *plan.Result {
 			a.D.Set(cr0.D)
 		}
 		digest = plan.Mix(digest ^ hashString(out0.String()) ^ hashString(outT.String())<<1)
+		if stop {
+			break // an abandoned call: no further verdicts from this run
+		}
 	}
 	if globalSnap != nil {
 		if d := globalSnap.Check(); d != "" {
